@@ -349,6 +349,134 @@ def instanceAttrs (s : Schema) (n : String) : Option (List SA) :=
   | .descriptor => some (ctorNoArg s (fuelOf s) n)
   | .fullEquality => none
 
+/-! ## Instances with the `_derive` / `_redefAttr` flags (`MakeDerived` / `MakeRedefined` wiring)
+
+`STEPattribute` objects are identified by their creation index; the head instance's list and the list of every
+`AppendMultInstance` part hold object ids, the flags live on the objects (a part's `MakeDerived` is visible on the
+head exactly when the head accepted that part's object). -/
+
+structure Obj where
+  sa : SA
+  derive : Bool := false
+  redef : Bool := false
+  deriving Repr, Inhabited
+
+structure IState where
+  objs : List Obj := []
+  head : List Nat := []
+  deriving Repr, Inhabited
+
+def saAt (st : IState) (id : Nat) : Option SA := (st.objs[id]?).map (·.sa)
+
+def IState.newObj (st : IState) (a : SA) : IState × Nat :=
+  ({ st with objs := st.objs ++ [{ sa := a }] }, st.objs.length)
+
+def modAt (l : List Obj) (i : Nat) (f : Obj → Obj) : List Obj :=
+  l.zipIdx.map (fun p => if p.2 == i then f p.1 else p.1)
+
+def setDerive (st : IState) (id : Nat) : IState := { st with objs := modAt st.objs id (fun o => { o with derive := true }) }
+def setRedef (st : IState) (id : Nat) : IState := { st with objs := modAt st.objs id (fun o => { o with redef := true }) }
+
+/-- `STEPattributeList::push` on a list of object ids: rejected when an object with the same descriptor is there -/
+def pushId (st : IState) (l : List Nat) (id : Nat) : List Nat :=
+  if l.any (fun j => saAt st j == saAt st id) then l else l ++ [id]
+
+/-- `GetSTEPattribute( nm, entity )`: first attribute of this instance named `nm` (whose owner is `entity`) -/
+def findAttr (st : IState) (l : List Nat) (nm : String) (owner : Option String) : Option Nat :=
+  l.find? (fun j => match saAt st j with
+    | some a => a.name == nm && (match owner with | some o => o == a.owner | none => true)
+    | none => false)
+
+/-- `orderedAttr` (src/express/ordered_attrs.cc) -/
+structure OA where
+  name : String
+  creator : String
+  deriver : Bool
+  deriving Repr, Inhabited
+
+def markFrom (cnt : Nat) (nm : String) (l : List OA) : Option (List OA) :=
+  match (l.zipIdx.find? (fun p => p.2 ≥ cnt && p.1.name == nm)) with
+  | some p => some (l.zipIdx.map (fun q => if q.2 == p.2 then { q.1 with deriver := true } else q.1))
+  | none => none
+
+/-- `populateAttrList`: supertypes first; an own attribute whose name occurs among the entries added for this
+    entity's supertypes marks that entry as derived by this entity (also for an explicit redeclaration), otherwise
+    it is appended (derived when it has an initializer) -/
+def populate (s : Schema) : Nat → String → List OA → List OA
+  | 0, _, l => l
+  | f + 1, n, l =>
+    match s.findE n with
+    | none => l
+    | some e =>
+      let cnt := l.length
+      let l1 := e.supers.foldl (fun acc sup => populate s f sup acc) l
+      e.attrs.foldl (fun acc a =>
+        match markFrom cnt a.name acc with
+        | some acc' => acc'
+        | none => acc ++ [{ name := a.name, creator := n, deriver := a.kind == .derived }]) l1
+
+/-- `dedupList`: first occurrence of (name, creator) stays -/
+def dedupOA : List OA → List OA → List OA
+  | acc, [] => acc
+  | acc, x :: xs => if acc.any (fun y => y.name == x.name && y.creator == x.creator) then dedupOA acc xs else dedupOA (acc ++ [x]) xs
+
+/-- the `MakeDerived( name, creator )` calls `initializeAttrs` prints into both constructors of `n` -/
+def derivedCalls (s : Schema) (n : String) : List (String × String) :=
+  ((dedupOA [] (populate s (fuelOf s) n [])).filter (·.deriver)).map (fun o => (o.name, o.creator))
+
+def applyDerived (st : IState) (l : List Nat) (calls : List (String × String)) : IState :=
+  calls.foldl (fun st c => match findAttr st l c.1 (some c.2) with
+    | some id => setDerive st id
+    | none => st) st
+
+/-- own-attribute loop of a constructor.  `cur = some l`: a part with its own list `l` (`attributes.push( a )` then
+    `se->attributes.push( a )`); `cur = none`: the head itself. -/
+def ownLoop (e : Entity) (st : IState) (cur : Option (List Nat)) : IState × Option (List Nat) :=
+  (e.attrs.filter (fun a => a.kind == .explicit)).foldl (fun (p : IState × Option (List Nat)) a =>
+    let sa : SA := { owner := e.name, name := dictAttrName a, kind := attrDKind a }
+    let (st, id) := p.1.newObj sa
+    let cur' := p.2.map (fun l => pushId st l id)
+    let st := { st with head := pushId st st.head id }
+    let mine := match cur' with | some l => l | none => st.head
+    let st := if a.redecl.isSome then
+        (match findAttr st mine a.name none with | some j => setRedef st j | none => st) else st
+    (st, cur')) (st, cur)
+
+def ctorWF (s : Schema) : Nat → String → IState → List Nat → IState × List Nat
+  | 0, _, st, cur => (st, cur)
+  | f + 1, n, st, cur =>
+    match s.findE n with
+    | none => (st, cur)
+    | some e =>
+      let p1 := match e.supers with
+        | [] => (st, cur)
+        | p :: _ => ctorWF s f p st cur
+      let st2 := e.supers.tail.foldl (fun st q => (ctorWF s f q st []).1) p1.1
+      let r := ownLoop e st2 (some p1.2)
+      let l := r.2.getD []
+      (applyDerived r.1 l (derivedCalls s n), l)
+
+def ctorNF (s : Schema) : Nat → String → IState → IState
+  | 0, _, st => st
+  | f + 1, n, st =>
+    match s.findE n with
+    | none => st
+    | some e =>
+      let st1 := match e.supers with
+        | [] => st
+        | p :: _ => ctorNF s f p st
+      let st2 := e.supers.tail.foldl (fun st q => (ctorWF s f q st []).1) st1
+      let r := ownLoop e st2 none
+      applyDerived r.1 r.1.head (derivedCalls s n)
+
+/-- the head's attribute list with flags: (descriptor, `_derive`, `_redefAttr` set) -/
+def instanceFlags (s : Schema) (n : String) : Option (List (SA × Bool × Bool)) :=
+  match pushKey with
+  | .descriptor =>
+    let st := ctorNF s (fuelOf s) n {}
+    some (st.head.filterMap (fun id => (st.objs[id]?).map (fun o => (o.sa, o.derive, o.redef))))
+  | .fullEquality => none
+
 /-! ## Name mangling over an abstract identifier alphabet
 
 EXPRESS identifiers as the scanner delivers them: lower-case letters, digits, underscore.  Generated C++
